@@ -162,9 +162,14 @@ def gen_dataset(ctx: Ctx, small: list[Any]) -> dict[str, Any]:
     kinds = []
     for t in range(n_tr):
         jid = f"t{t}"
-        kind = r.choice(["tree", "tree", "twin", "same", "dangling", "names", "edge"])
+        kind = r.choice(["tree", "tree", "twin", "same", "dangling", "dangling", "names", "edge"])
         tr = r.choice(small) if kind in ("tree", "dangling", "names", "edge") or not base else (
             twin(r, r.choice(base)) if kind == "twin" else r.choice(base))
+        if kind == "dangling" and r.random() < 0.5:
+            # the broken trace has the shape of a well-formed one: of an earlier trace, or of the next one generated
+            # (so that it is stored before its twin)
+            tr = r.choice(base) if base else tr
+            base.append(tr)
         if kind not in ("dangling",):
             base.append(tr)
         ps, ls = tr
